@@ -2,9 +2,10 @@
 import re, os
 from tools import cxx2c
 from tools.cxx2c import Lower, Unsupported, kids, qt, strip, callee_name, norm_type
+from tools.cxx2c import REPO as _REPO
 
 NAME = 'LEX'
-SRC = '/repo/src/bloch/compiler/lexer/lexer.cpp'
+SRC = _REPO + '/src/bloch/compiler/lexer/lexer.cpp'
 AST_FILTER = 'Lexer'
 SHIM = 'lex.h'
 NAMESPACE = 'bloch::compiler'
@@ -494,7 +495,7 @@ def native_validate(pu, work, tier, seed):
     try:
         _nat.build_c(pu['src_c'], os.path.join(wd, 'lex_native.o'))
         b = _build(wd, 'coexec')
-        files = sorted(glob.glob('/repo/examples/**/*.bloch', recursive=True) + glob.glob('/repo/library/**/*.bloch', recursive=True))[:60]
+        files = sorted(glob.glob(_REPO + '/examples/**/*.bloch', recursive=True) + glob.glob(_REPO + '/library/**/*.bloch', recursive=True))[:60]
         rc, out, dt = _nat.run([b, str(seed), '3000' if tier == 'quick' else '200000', '24' if tier == 'quick' else '40'] + files)
         js = _nat.last_json(out)
         res = dict(unit='LEX', kind='co-execution lowered C vs real Lexer (every token field and diagnostic)', status='agree' if rc == 0 else 'disagree',
